@@ -28,7 +28,10 @@ answer with an error or a query, never panic (the error is latched in the middle
 Stream boltnest (c10_nest.go): 36 symbol names that CLASH between the three bolt-backed stores (every ordered pair of the kinds scalar string /
 scalar int64 / fk / string set / fk set / map for every pair of stores) used - as scalar, dotted, in set functions, as sub-query source, in
 in-lists and sort clauses - BEHIND sub-queries nested to depth 1-3 over every order of the stores, in the outer scope and in every scope in
-between, on rows that reach them; parsed against the real store and evaluated through every Store query API."""
+between, on rows that reach them; parsed against the real store and evaluated through every Store query API.
+Streams boltpage / qcurpage (c10_page.go): skip / limit literals of extreme magnitude (2^48+1 .. int64 max, sums that overflow, int64 min) on unsorted, id-sorted
+and field-sorted queries and on sub-queries, through every Store query API / every cursor provider; huge ALLOCATABLE limits (2^28 .. 2^47) in a child process under an
+address-space limit (page_step): evaluation whose memory follows the literal instead of the rows dies there - C10:eval-allocates-by-paging-literal."""
 import json
 import os
 import time
@@ -218,6 +221,60 @@ def term_step(c, harness, only=None, launched=None):
                     dict(termcase=dict(hang=hang, last=last), rc=rc, log=out[-2000:]))
     return not stalls and rc == 0
 
+def page_step(c, harness, only=None):
+    """huge and ALLOCATABLE paging values (2^28 .. 2^47) in a child process under an address-space limit (harness c10_page.go):
+    evaluation that allocates in proportion to a skip / limit literal dies there with `fatal error: out of memory`"""
+    import shutil
+    args = [harness, "c10", "--pagecase", "1", "--out", c.work]
+    if only:
+        args += ["--pageonly", only]
+    t0 = time.time()
+    rc, out = vlib.run(args, timeout=600)
+    lines = [l.split() for l in out.split("\n")]
+    tmp = [l[1] for l in lines if len(l) == 2 and l[0] == "TMP"]
+    limit = [l for l in lines if l and l[0] == "LIMIT" and len(l) == 3]
+    nolimit = [l for l in lines if l and l[0] == "NOLIMIT"]
+    ran = [l[1] for l in lines if len(l) == 2 and l[0] == "RUN"]
+    ok = [l[1] for l in lines if len(l) == 2 and l[0] in ("OK", "REJECTED")]
+    panics = [l for l in lines if len(l) == 5 and l[0] == "PANIC"]
+    at = [l for l in lines if len(l) == 3 and l[0] == "AT"]
+    done = [l for l in lines if l and l[0] == "DONE"]
+    c.cov["huge_paging_under_memory_limit"] = dict(
+        wall_s=round(time.time() - t0, 1), filters=len(ran), finished=len(ok), address_space_limit_bytes=int(limit[0][2]) if limit else None,
+        mapped_before_bytes=int(limit[0][1]) if limit else None, not_limited=" ".join(nolimit[0][1:]) if nolimit else None,
+        rule="child process `storageharness c10 --pagecase 1`: RLIMIT_AS = mapped + 3 GB, then 3 predicates x 6 scanner-selecting sort clauses x "
+        "(limit L, skip 1 limit L, skip L, skip L limit L) + sub-query paging, L in 2^28, 2^31-1, 2^32, 10^12, 2^40, 2^47, through QueryIds / QueryIdsC / "
+        "IterateIds / IterateValidIds / QueryWithCursorC over every root; a death of the child while a filter runs (out of memory) or a panic is a violation")
+    if only:
+        for l in lines:
+            if l:
+                vlib.log("REPLAY " + " ".join(l))
+    how = ("stores and datasets of harness/cmd/storageharness/c10_store.go (c10sBuild); inside db.View: store.%s(tx, filter) with the address space of the process "
+           "limited (ulimit -v) - without a limit the call tries to allocate memory in proportion to the limit / skip literal")
+    for l in panics[:3]:
+        site, api, where, text_r = l[1], l[2], l[3], l[4]
+        c.violation("C10:panic-eval:" + site, "filter %r parses against the bolt-backed store and Store.%s panics in %s when it is evaluated over the dataset %s"
+                    % (runes(text_r), api, site, where),
+                    dict(pagecase=dict(filter=text_r), filter=runes(text_r), filter_go=go_literal(text_r), api=api, dataset=where, site=site, how_to_reproduce=how % api))
+    if rc != 0 or not done:
+        running = ran[-1] if len(ran) > len(ok) + len(panics) else None
+        fatal = [ln for ln in out.split("\n") if ln.startswith("fatal error:") or ln.startswith("runtime: out of memory") or "cannot allocate" in ln]
+        if running is not None:
+            api, where = (at[-1][1], at[-1][2]) if at else ("?", "?")
+            c.violation("C10:eval-allocates-by-paging-literal",
+                        "filter %r parses against the bolt-backed store and evaluating it (Store.%s, dataset %s) kills the process: %s. The datasets hold a dozen rows; the memory "
+                        "asked for follows the skip / limit literal of the filter text (address space limited to mapped + 3 GB; an unlimited process tries to allocate it)"
+                        % (runes(running), api, where, "; ".join(fatal[:2]) or ("rc=%s" % rc)),
+                        dict(pagecase=dict(filter=running), filter=runes(running), filter_go=go_literal(running), api=api, dataset=where, rc=rc, log=out[-1500:],
+                             how_to_reproduce=how % api))
+        else:
+            c.violation("C10:harness-run", "the huge-paging child process failed outside a filter (rc=%s): %s" % (rc, out[-500:]),
+                        dict(correspondence="harness run", log=out[-3000:]), no_input=True)
+    for t in tmp:
+        if os.path.basename(t).startswith("c10s") and os.path.isdir(t):
+            shutil.rmtree(t, ignore_errors=True)
+    return rc == 0 and not panics
+
 
 def main(argv):
     c = vlib.Check(PID, argv)
@@ -251,6 +308,9 @@ def main(argv):
             term_step(c, harness, only="%s,%d,%s,%d" % (tc["family"], tc["n"], tc["variant"], tc["entry"]))
         else:
             term_step(c, harness)
+        return c.finish()
+    if c.replay and "pagecase" in json.load(open(c.replay)):
+        page_step(c, harness, only=json.load(open(c.replay))["pagecase"]["filter"])
         return c.finish()
     if c.replay:
         rp = json.load(open(c.replay))
@@ -444,6 +504,8 @@ def main(argv):
                         dict(scalecase=20, filter="a" + " and a or a" * 20, timeout_s=limit, finished=scale, rc=rc))
     if term_bg is not None:
         term_step(c, harness, launched=term_bg)
+    if not c.replay:
+        page_step(c, harness)
     c.cov["evaluations"] = evaluations
     c.cov["cases"] = len(cases)
     c.cov["distinct_nontrivial"] = len(distinct)
@@ -482,6 +544,9 @@ def main(argv):
                      "ENTRY POINTS: every filter of every stream through zitiql.Parse, ParseWithDebug(false), ParseWithDebug(true), Parse after the debug run, Parse with the ast listener, "
                      "ast.Parse + QueryIds(string) of a boltz store, ast.Parse + QueryEntities(string) of an objectz store: accept / reject / panic per entry point; the syntax-only ones must be equal, "
                      "a typed one never accepts what the one below it refuses, none accepts a lexer error or a non-sentence. "
+                     "boltpage / qcurpage = 7 predicates x 6 scanner-selecting clauses (unsorted, sort by id asc / desc, field keys) x skip / limit literals 2^48+1, 2^53+1, 2^62, int64 max - 807 / - 1 / max, "
+                     "sums that overflow int64, int64 min, -1 (all beyond the largest allocation of the Go runtime: a make() sized by one panics instead of allocating), also as sub-query paging; typing store resp. cursors; "
+                     "allocatable huge limits: coverage key `huge_paging_under_memory_limit`. "
                      "qcur = 15 predicates x 13 sort / skip / limit clauses (every scanner), typing `cursors`: QueryWithCursorC + a walk of the cursor in both directions for EVERY provider of the matrix "
                      "(IteratorMatchingAnyOf / AllOf on a string-set and an fk-set index with every value list of length 0..3 (thorough 0..4) over {absent, absent, key without rows, one row, several rows}, "
                      "OpenValueCursor / OpenKeyCursor, tree sets of 0..3 ids, union / filtered cursors over them and over nil / empty cursors, empty and nil providers, entities bucket, related-entity cursors, "
